@@ -19,6 +19,7 @@ import (
 	"fmt"
 	"net"
 	"reflect"
+	"slices"
 	"sync"
 	"time"
 
@@ -139,7 +140,8 @@ func (vm *Manager) UpdateAll(cfgs []v1.VisitorConfigurer) {
 	}
 
 	xl := xlog.FromContextSafe(vm.ctx)
-	cfgsMap := lo.KeyBy(cfgs, func(c v1.VisitorConfigurer) string {
+	// If a name occurs more than once the first entry wins, here as in the add loop below.
+	cfgsMap := lo.KeyBy(lo.Reverse(slices.Clone(cfgs)), func(c v1.VisitorConfigurer) string {
 		return c.GetBaseConfig().Name
 	})
 	vm.mu.Lock()
